@@ -1,6 +1,16 @@
 # Work package "botcompose": the bot loop composed with the real Bot implementations.  Generator C07compose runs the real
 # bot.PlayGame / ObserveGame with the REAL Friendly (no rule / centre / double stack / cairn) or Taktician as Bot.
-_glue_part("C07", "C07compose",
+def _compose_part(pid, gen, rule, assumptions):
+    cur = PROPS.get(pid)
+    if cur is None:
+        return
+    gens = cur.setdefault("generators", [pid])
+    if gen not in gens:
+        gens.append(gen)
+    cur["rule"] = (cur.get("rule", "") + " || " + rule).strip(" |")
+    cur["assumptions"] = cur.get("assumptions", []) + [a for a in assumptions if a not in cur.get("assumptions", [])]
+
+_compose_part("C07", "C07compose",
      "COMPOSED (sampled): the real bot.PlayGame / ObserveGame with the real Friendly (no FPA rule, centre, double stack, cairn) or Taktician (-use-opponent-time on/off) as its Bot under the lock-step scheduler; "
      "only the searching player (f.ai / t.ai) is a stub that waits for the scheduler and Friendly's depth-3 check engine answers what the schedule says. Random schedules of 6-28 events: server moves (rule-accepted or any legal) with and without clock line, "
      "clock line alone, grace timer, RequestUndo / Undo (Friendly agrees, Taktician refuses), chat, foreign-game lines, Over / Abandoned / close, answers of the searching player at once or held back over several invocation-ending events (thinkers queue on moveLock and enter GetMove after their invocation "
